@@ -196,9 +196,13 @@ type vfSink struct {
 	short   bool
 	writes  int
 	maxSeen int
+	sim     *vfSim // if set, every Write waits for the scheduler before it looks at its argument (a slow writer)
 }
 
 func (s *vfSink) Write(p []byte) (int, error) {
+	if s.sim != nil {
+		s.sim.park(fmt.Sprintf("x:sink:%06d", s.writes), nil)
+	}
 	s.writes++
 	if s.failAt >= 0 && s.buf.Len()+len(p) > s.failAt {
 		k := 0
@@ -321,6 +325,9 @@ func (e *vfClientEnv) do(op vfOp) (res *vfOpResult) {
 			var short int
 			fmt.Sscanf(op.S, "%d,%d", &sink.failAt, &short)
 			sink.short = short != 0
+		}
+		if op.A == 1 {
+			sink.sim = e.sim
 		}
 		e.mu.Lock()
 		e.sink = sink
